@@ -308,7 +308,13 @@ func unevaluated(src string) bool {
 	depth := strings.Count(pre, "{% if") + strings.Count(pre, "{% for") + strings.Count(pre, "{% macro") + strings.Count(pre, "{% block") -
 		strings.Count(pre, "{% endif") - strings.Count(pre, "{% endfor") - strings.Count(pre, "{% endmacro") - strings.Count(pre, "{% endblock")
 	// ternaries and short-circuit operators also skip evaluation
-	tagStart := strings.LastIndex(pre, "{")
+	tagStart := strings.LastIndex(pre, "{{")
+	if b := strings.LastIndex(pre, "{%"); b > tagStart {
+		tagStart = b
+	}
+	if tagStart < 0 {
+		tagStart = 0
+	}
 	inExpr := pre[tagStart:]
 	if end := strings.Index(src[i:], "%}"); end >= 0 && strings.Contains(src[i:i+end], "ignore missing") {
 		return true // a missing template under `ignore missing` is the documented tolerance
